@@ -29,6 +29,7 @@ RULES = {
     "C04-N3": "token class -> radix wiring identical in all decoders; lexer letter -> class -> digit recogniser",
     "C04-N4": "converter wiring: width/sign -> strtol/strtoul/strtoll/strtoull/strtof/strtod on the token start; consumed length returned",
     "C04-N6": "(builds without strncasecmp) the library's own comparison treats two bytes as equal exactly when they are equal after folding A-Z onto a-z",
+    "C04-N7": "the floating readers account for the whole token: a decimal token may contain white space before the exponent and after its 'E' (C13-T5), which strtod/strtof do not read - the consumed length is compared with the token length or the conversion is length-aware",
     "C04-N5": "unit lookup is length-exact and case-insensitive; multiplier and unit of the found row are applied",
 }
 
@@ -287,6 +288,59 @@ def rule_n4(ck, prog, spec):
             ck.holds("C04-N4", st, K.loc(f, ints[0]), "non-decimal literals decoded with %s" % ints[0]["callee"], nontrivial=False)
 
 
+def rule_n7(ck, prog):
+    gram = K.load_spec("grammar_488_2.json")["sequences"]
+    ws_inside = any("skipWs" in seq[1:] for seqs in (gram.get("scpiLex_DecimalNumericProgramData", []), gram.get("skipExponent", [])) for seq in seqs)
+    for name, conv in (("SCPI_ParamToDouble", "strToDouble"), ("SCPI_ParamToFloat", "strToFloat")):
+        f = prog.fn(name)
+        if f is None:
+            ck.anchor_lost("C04-N7", name)
+            continue
+        st = K.site(f, "whole-token", 0)
+        par = f.params[1]["name"]
+        cs = [c for c in f.calls() if c.get("callee") == conv]
+        if not ws_inside:
+            ck.holds("C04-N7", st, K.loc(f), "the token grammar has no inner white space", nontrivial=False)
+            continue
+        if not cs:
+            # another conversion route: it must be handed the token length
+            aware = [c for c in f.calls() if any(a.strip_all_casts().get("path") == par + "->len" for a in C.call_args(c))]
+            if aware:
+                ck.holds("C04-N7", st, K.loc(f, aware[0]), "length-aware conversion `%s`" % aware[0].src[:60])
+            else:
+                ck.undecided("C04-N7", st, K.loc(f), "conversion of the decimal arm not found")
+            continue
+        c = cs[0]
+        # is the consumed length (the call's value) compared with the token length ?
+        compared = False
+        lenpath = par + "->len"
+        holders = {None}
+        for n, t in C.stores(f):
+            if n.get("op") == "=" and n.child(1).strip_all_casts() is c:
+                holders.add(t.get("path"))
+        for n in f.nodes.values():
+            if n.k == "DeclStmt":
+                for d in n.get("decls", []):
+                    if "init" in d and f.nodes[d["init"]].strip_all_casts() is c:
+                        holders.add(d["name"])
+        for n in f.nodes.values():
+            if n.k == "BinaryOperator" and n.get("op") in ("==", "!=", "<", ">=", ">", "<="):
+                l, r = n.child(0).strip_all_casts(), n.child(1).strip_all_casts()
+                sides = [l, r]
+                has_len = any(x.get("path") == lenpath or any(y.get("path") == lenpath for y in x.walk()) for x in sides)
+                has_conv = any(x is c or x.get("path") in (holders - {None}) for x in sides)
+                if has_len and has_conv:
+                    compared = True
+        if compared or any(a.strip_all_casts().get("path") == lenpath for a in C.call_args(c)):
+            ck.holds("C04-N7", st, K.loc(f, c), "characters converted are checked against the token length")
+        else:
+            ck.violated("C04-N7", st, K.loc(f, c),
+                        "%s accepts `%s(...) > 0`: the token may contain white space before the exponent and after its 'E' "
+                        "(`1 E5`, `1E 5`), %s stops there, and the value of the prefix (1) is delivered as the value of the literal"
+                        % (name, conv, "strtod" if conv == "strToDouble" else "strtof"))
+        ck.analysed(f)
+
+
 def rule_n5(ck, prog, S):
     f = prog.fn("translateUnit")
     if f is None:
@@ -356,6 +410,8 @@ def run(ck, fb, tier):
         rule_n3(ck, prog, spec, S)
         rule_n4(ck, prog, spec)
         rule_n5(ck, prog, S)
+        if cfg == "A" or tier == "thorough":
+            rule_n7(ck, prog)
         if K.casefold_rule(ck, prog, "C04-N6", tier):
             seen_fold = True
     if "E" in fb.configs and not seen_fold:
